@@ -8,6 +8,8 @@ import (
 	"go/token"
 	"go/types"
 	"os"
+	"path/filepath"
+	"regexp"
 	"sort"
 	"strings"
 
@@ -998,44 +1000,72 @@ func (e *Engine) preRegisterExterns() {
 				if callee == nil || e.inRepo(callee) {
 					continue
 				}
-				pp := pkgPathOf(callee)
-				if !purePkgs[pp] || pp == "os" || pp == "io" || pp == "runtime" {
-					continue
-				}
-				if _, modelled := externModels[externName(callee)]; modelled {
-					continue
-				}
-				sig := callee.Signature
-				var asorts []Sort
-				ok2 := true
-				for i, p := range callee.Params {
-					s := e.Model.SortOf(p.Type())
-					if !isScalarSort(s, p.Type()) {
-						if i == 0 && sig.Recv() != nil && pp == "regexp" {
-							asorts = append(asorts, SInt)
-							continue
-						}
-						ok2 = false
-						break
-					}
-					asorts = append(asorts, s)
-				}
-				if !ok2 || sig.Results().Len() == 0 {
-					continue
-				}
-				base := "ext_" + mangle(externName(callee))
-				for i := 0; i < sig.Results().Len(); i++ {
-					rt := sig.Results().At(i).Type()
-					rs := e.Model.SortOf(rt)
-					fnn := fmt.Sprintf("%s_%d", base, i)
-					switch {
-					case isErrorType(rt):
-						e.extSigs[fnn] = builtinSig{asorts, SBool}
-					case isScalarSort(rs, rt):
-						e.extSigs[fnn] = builtinSig{asorts, rs}
-					}
-				}
+				e.registerExtern(callee)
 			}
+		}
+	}
+	// externals the contract files name (ext_<pkg>_<Func>_<i>) stay known when the code stops calling them:
+	// a clause such as "result == strconv.Atoi(value)" then FAILS on changed code instead of becoming a spec error
+	want := map[string]bool{}
+	re := regexp.MustCompile(`ext_[A-Za-z0-9_]+_[0-9]+`)
+	raw, _ := filepath.Glob(filepath.Join(e.RepoDir, "*", "verif_contracts*.go"))
+	for _, f := range raw {
+		b, err := os.ReadFile(f)
+		if err != nil {
+			continue
+		}
+		for _, tok := range re.FindAllString(string(b), -1) {
+			if _, ok := e.extSigs[tok]; !ok {
+				want[tok[:strings.LastIndex(tok, "_")]] = true
+			}
+		}
+	}
+	if len(want) > 0 {
+		for fn := range e.allFuncs {
+			if e.inRepo(fn) || fn.Parent() != nil || fn.Origin() != nil {
+				continue
+			}
+			if want["ext_"+mangle(externName(fn))] {
+				e.registerExtern(fn)
+			}
+		}
+	}
+}
+
+func (e *Engine) registerExtern(callee *ssa.Function) {
+	pp := pkgPathOf(callee)
+	if !purePkgs[pp] || pp == "os" || pp == "io" || pp == "runtime" {
+		return
+	}
+	if _, modelled := externModels[externName(callee)]; modelled {
+		return
+	}
+	sig := callee.Signature
+	var asorts []Sort
+	for i, p := range callee.Params {
+		s := e.Model.SortOf(p.Type())
+		if !isScalarSort(s, p.Type()) {
+			if i == 0 && sig.Recv() != nil && pp == "regexp" {
+				asorts = append(asorts, SInt)
+				continue
+			}
+			return
+		}
+		asorts = append(asorts, s)
+	}
+	if sig.Results().Len() == 0 {
+		return
+	}
+	base := "ext_" + mangle(externName(callee))
+	for i := 0; i < sig.Results().Len(); i++ {
+		rt := sig.Results().At(i).Type()
+		rs := e.Model.SortOf(rt)
+		fnn := fmt.Sprintf("%s_%d", base, i)
+		switch {
+		case isErrorType(rt):
+			e.extSigs[fnn] = builtinSig{asorts, SBool}
+		case isScalarSort(rs, rt):
+			e.extSigs[fnn] = builtinSig{asorts, rs}
 		}
 	}
 }
